@@ -33,6 +33,7 @@ const (
 	pElem
 	pGlobal
 	pSeqElem
+	pCond // cond ? a : b (a pointer merged at a control-flow join)
 )
 
 type pathElem struct {
@@ -50,6 +51,8 @@ type Ptr struct {
 	slice *Term        // pElem: slice value (ref, off, len, cap)
 	idx   *Term        // pElem
 	glob  *ssa.Global  // pGlobal
+	cond  *Term        // pCond
+	pa, pb *Ptr        // pCond
 	base  types.Type   // type of the located base value (before path)
 	path  []pathElem
 	typ   types.Type // pointee type (after path)
@@ -254,6 +257,13 @@ func (u *Unit) loadBase(st *State, p *Ptr) Val {
 		return u.globalValue(p.glob)
 	case pSeqElem:
 		return u.m.SeqAt(p.slice, p.idx)
+	case pCond:
+		a, ok1 := u.load(st, p.pa).(*Term)
+		b, ok2 := u.load(st, p.pb).(*Term)
+		if !ok1 || !ok2 {
+			panic(u.errf("load through a merged pointer to a non-term value"))
+		}
+		return u.m.tb.Ite(p.cond, a, b)
 	}
 	panic("loadBase")
 }
@@ -271,6 +281,11 @@ func (u *Unit) storeBase(st *State, p *Ptr, v Val) {
 		u.setElemsArr(st, ref, et, u.m.tb.Store(arr, u.m.ElemIx(u.m.SliceOff(p.slice), p.idx), v.(*Term)))
 	case pGlobal:
 		panic(u.errf("store to global %s is outside the subset", p.glob.Name()))
+	case pCond:
+		oa := u.load(st, p.pa).(*Term)
+		ob := u.load(st, p.pb).(*Term)
+		u.store(st, p.pa, u.m.tb.Ite(p.cond, v.(*Term), oa))
+		u.store(st, p.pb, u.m.tb.Ite(p.cond, ob, v.(*Term)))
 	}
 }
 
@@ -426,6 +441,22 @@ func (u *Unit) mergeVals(vals []Val, gs []*Term) (Val, bool) {
 	if allSame {
 		return vals[0], true
 	}
+	if p0, ok := vals[0].(*Ptr); ok {
+		// pointers to different locations: a conditional pointer
+		accp := (*Ptr)(nil)
+		for i := len(vals) - 1; i >= 0; i-- {
+			p, ok := vals[i].(*Ptr)
+			if !ok || !types.Identical(p.typ, p0.typ) {
+				return nil, false
+			}
+			if accp == nil {
+				accp = p
+			} else {
+				accp = &Ptr{kind: pCond, cond: gs[i], pa: p, pb: accp, base: p.typ, typ: p.typ}
+			}
+		}
+		return accp, true
+	}
 	var acc *Term
 	for i := len(vals) - 1; i >= 0; i-- {
 		t, ok := vals[i].(*Term)
@@ -451,6 +482,9 @@ func sameVal(a, b Val) bool {
 		return ok && a == bt
 	case *Ptr:
 		bp, ok := b.(*Ptr)
+		if ok && a.kind == pCond {
+			return bp.kind == pCond && a.cond == bp.cond && sameVal(a.pa, bp.pa) && sameVal(a.pb, bp.pb)
+		}
 		if !ok || a.kind != bp.kind || a.cell != bp.cell || a.ref != bp.ref || a.dt != bp.dt || a.field != bp.field ||
 			a.slice != bp.slice || a.idx != bp.idx || a.glob != bp.glob || len(a.path) != len(bp.path) {
 			return false
